@@ -77,8 +77,9 @@ def _targets(t, out):
 
 
 class DefAssign:
-    def __init__(self, fn):
+    def __init__(self, fn, siblings=()):
         self.fn = fn
+        self.siblings = list(siblings)      # defs of the enclosing class / module: candidates for no-return helpers
         a = fn.args
         self.params = {x.arg for x in a.posonlyargs + a.args + a.kwonlyargs}
         if a.vararg:
@@ -150,6 +151,15 @@ class DefAssign:
         if isinstance(e.func, ast.Name):
             for n in walk_no_nested(self.fn):
                 if isinstance(n, FuncTypes) and n is not self.fn and n.name == e.func.id and n.body and isinstance(n.body[-1], ast.Raise):
+                    return True
+            # a module-level helper that always raises
+            for n in self.siblings:
+                if n.name == e.func.id and n.body and isinstance(n.body[-1], ast.Raise):
+                    return True
+        # self._fail(...): a method of the same class whose last statement is a raise
+        if isinstance(e.func, ast.Attribute) and isinstance(e.func.value, ast.Name) and e.func.value.id in ('self', 'cls'):
+            for n in self.siblings:
+                if n.name == e.func.attr and n.body and isinstance(n.body[-1], ast.Raise):
                     return True
         return False
 
@@ -293,7 +303,9 @@ def unbound_locals(ctx, rule, module_prefixes, frozen):
         mod = fid.split(':')[0]
         if not any(mod == p or mod.startswith(p) for p in module_prefixes) or isinstance(fn, ast.Lambda):
             continue
-        da = DefAssign(fn)
+        par = repo.parent(fn)
+        sibs = [x for x in getattr(par, 'body', []) if isinstance(x, FuncTypes) and x is not fn] if par is not None else []
+        da = DefAssign(fn, sibs)
         hits = da.run()
         c = per_mod.setdefault(mod, [0, 0])
         c[0] += da.uses
